@@ -68,7 +68,7 @@ install_pool()
 
 
 class Observation:
-    __slots__ = ('error', 'files', 'result', 'events', 'map_calls', 'paths')
+    __slots__ = ('error', 'files', 'result', 'events', 'map_calls', 'paths', 'extra')
 
     def __init__(self):
         self.error = None
@@ -77,6 +77,14 @@ class Observation:
         self.events = []
         self.map_calls = []
         self.paths = {}
+        self.extra = None
+
+    def __getstate__(self):
+        return {k: getattr(self, k) for k in self.__slots__}
+
+    def __setstate__(self, st):
+        for k, v in st.items():
+            setattr(self, k, v)
 
 
 def write_world(d, world):
@@ -88,11 +96,38 @@ def write_world(d, world):
     return rp, qp
 
 
-def cli_args(rp, qp, op, mode, extra=(), cpus='1'):
+def cli_args(rp, qp, op, mode, extra=(), cpus='3'):
+    # in-process runs ask for 3 workers so that the pool code path is taken (the stand-in pool ignores the number); a tree that
+    # special-cases `-c 1` must not make every S2 check explore only the special case
     return ['-r', rp, '-q', qp, '-o', op, '-pb', '-c', str(cpus), '-oM', mode] + [str(x) for x in extra]
 
 
-def run_world(world, mode=None, extra=None, extensions=None, directory=None, keep_result=False):
+def run_world(world, mode=None, extra=None, extensions=None, directory=None, keep_result=False, cpus='3', in_child=None,
+              isolate=True):
+    """Run the real Program on one world and return an Observation.
+
+    Every run happens in its own forked child (isolate=True): a real `coma` invocation is a fresh process, so state that COMA keeps
+    at module or class level must not leak from one run of the harness into the next (it may leak from query to query INSIDE a run -
+    that is the single-worker behaviour the stand-in pool models).  Objects that do not pickle (the returned rows, the 'row' events
+    of sink.Rows) stay in the child; `in_child(obs)` is evaluated there and its picklable result is returned as obs.extra."""
+    if isolate:
+        st, obs = core.run_isolated(_run_world_child, world, mode, extra, extensions, directory, keep_result, cpus, in_child)
+        if st != 'ok':
+            raise RuntimeError('isolated run failed inside the harness: %s' % obs)
+        return obs
+    return _run_world(world, mode, extra, extensions, directory, keep_result, cpus)
+
+
+def _run_world_child(world, mode, extra, extensions, directory, keep_result, cpus, in_child):
+    obs = _run_world(world, mode, extra, extensions, directory, keep_result or in_child is not None, cpus)
+    if in_child is not None:
+        obs.extra = in_child(obs)
+    obs.result = None
+    obs.events = [ev for ev in obs.events if ev[0] != 'row']
+    return obs
+
+
+def _run_world(world, mode=None, extra=None, extensions=None, directory=None, keep_result=False, cpus='3'):
     """Run the real Program on one world in this process; returns an Observation."""
     from mc import sink
     d = directory or core.scratch_dir()
@@ -110,7 +145,7 @@ def run_world(world, mode=None, extra=None, extensions=None, directory=None, kee
     del sink.EVENTS[:]
     args = None
     try:
-        args = Args.parse(cli_args(rp, qp, op, mode, extra))
+        args = Args.parse(cli_args(rp, qp, op, mode, extra, cpus))
         prog = Program(args, list(extensions) if extensions else None)
         res = prog.run()
         if keep_result:
